@@ -280,6 +280,34 @@ def _find_violation(e):
     return None
 
 
+def kill_descendants():
+    """SIGKILL every descendant process (workers and whatever they spawned), so that a shard
+    stuck inside the library cannot keep the check from exiting."""
+    import signal
+
+    me = os.getpid()
+    children: dict[int, list[int]] = {}
+    for d in os.listdir("/proc"):
+        if not d.isdigit():
+            continue
+        try:
+            with open(f"/proc/{d}/stat") as f:
+                parts = f.read().rsplit(")", 1)[1].split()
+            children.setdefault(int(parts[1]), []).append(int(d))
+        except Exception:  # noqa: BLE001
+            continue
+    todo, victims = [me], []
+    while todo:
+        for c in children.get(todo.pop(), []):
+            victims.append(c)
+            todo.append(c)
+    for v in victims:
+        try:
+            os.kill(v, signal.SIGKILL)
+        except Exception:  # noqa: BLE001
+            pass
+
+
 def _job(args):
     pid, modname, facet_name, tier, seed, shard, nshards = args
     import importlib
@@ -331,6 +359,9 @@ def run_property(pid, modname, tier, seed, level, rule, assumptions, procs=16, o
                 except Exception as e:  # noqa: BLE001 - BrokenProcessPool etc.
                     outs.append(("harness", f"worker for facet {j[2]} shard {j[5]} died: {type(e).__name__}: {e}"))
         finally:
+            timed_out = any(o[0] == "harness" and str(o[1]).startswith("TIMEOUT") for o in outs)
+            if timed_out:
+                kill_descendants()
             for p_ in list(getattr(ex, "_processes", {}).values()):
                 try:
                     p_.kill()
